@@ -13,29 +13,51 @@ C++ (no libc) and is mirrored completely in `Code.lean`.
 namespace Muscle.Wildcard
 open Muscle
 
-/-- the items of a class up to and including the closing `]` -/
-def parseItems : Bytes → Option (List ClsItem × Bytes)
-  | [] => none
-  | c :: r =>
-    if c == cRBr then some ([], r)
-    else if !clsChar c then none
-    else
-      let single := (parseItems r).map (fun p => (ClsItem.ch c :: p.1, p.2))
-      match r with
-      | d :: h :: r2 =>
-        if d == cDash then
-          if clsChar h && decide (c ≤ h) then (parseItems r2).map (fun p => (ClsItem.rng c h :: p.1, p.2)) else none
-        else single
-      | _ => single
+/-- the items of a class up to and including the closing `]` (fuel: one unit per item) -/
+def parseItemsF : Nat → Bytes → Option (List ClsItem × Bytes)
+  | 0, _ => none
+  | f+1, inp =>
+    match inp with
+    | [] => none
+    | c :: r =>
+      if c == cRBr then some ([], r)
+      else if !clsChar c then none
+      else match r with
+        | d :: h :: r2 =>
+          if d == cDash then
+            if clsChar h && decide (c ≤ h) then (parseItemsF f r2).map (fun p => (ClsItem.rng c h :: p.1, p.2)) else none
+          else (parseItemsF f r).map (fun p => (ClsItem.ch c :: p.1, p.2))
+        | _ => (parseItemsF f r).map (fun p => (ClsItem.ch c :: p.1, p.2))
 
-/-- after the opening `[` -/
-def parseClass (inp : Bytes) : Option (Pat × Bytes) :=
-  let (neg, r) := match inp with
-    | c :: r => if c == cCaret then (true, r) else (false, inp)
-    | [] => (false, inp)
+def parseItems (inp : Bytes) : Option (List ClsItem × Bytes) := parseItemsF (inp.length + 1) inp
+
+/-- the members of a class (after `[` or `[^`) -/
+def finishClass (neg : Bool) (r : Bytes) : Option (Pat × Bytes) :=
   match parseItems r with
   | some (items, rest) => if items.isEmpty then none else some (.cls neg items, rest)
   | none => none
+
+/-- after the opening `[` -/
+def parseClass (inp : Bytes) : Option (Pat × Bytes) :=
+  match inp with
+  | c :: r => if c == cCaret then finishClass true r else finishClass false inp
+  | [] => finishClass false inp
+
+/-- one atom starting with character `c` (rest of the input `r`); `sub` parses the inside of a group -/
+def parseAtomWith (sub : Bytes → Option (Pat × Bytes)) (c : UInt8) (r : Bytes) : Option (Pat × Bytes) :=
+  if c == cStar then some (.star, r)
+  else if c == cQm then some (.any, r)
+  else if c == cLBr then parseClass r
+  else if c == cLPar then
+    match sub r with
+    | some (a, d :: r') => if d == cRPar then some (.grp a, r') else none
+    | _ => none
+  else if c == cBs then
+    match r with
+    | x :: r' => if x != 0 then some (.lit true x, r') else none
+    | [] => none
+  else if plain c then some (.lit false c, r)
+  else none
 
 mutual
 /-- `seq (sep seq)*`, stops in front of `)` or at the end -/
@@ -61,21 +83,7 @@ def parseSeq : Nat → Bytes → Option (Pat × Bytes)
     | c :: r =>
       if c == cBar || c == cComma || c == cRPar then some (.eps, inp)
       else
-        let atom : Option (Pat × Bytes) :=
-          if c == cStar then some (.star, r)
-          else if c == cQm then some (.any, r)
-          else if c == cLBr then parseClass r
-          else if c == cLPar then
-            match parseAlts f r with
-            | some (a, d :: r') => if d == cRPar then some (.grp a, r') else none
-            | _ => none
-          else if c == cBs then
-            match r with
-            | x :: r' => some (.lit true x, r')
-            | [] => none
-          else if plain c then some (.lit false c, r)
-          else none
-        match atom with
+        match parseAtomWith (fun x => parseAlts f x) c r with
         | some (a, r1) =>
           match parseSeq f r1 with
           | some (b, r2) => some (.seq a b, r2)
@@ -83,14 +91,17 @@ def parseSeq : Nat → Bytes → Option (Pat × Bytes)
         | none => none
 end
 
-/-- a pattern of the documented grammar (not a range list, not a backtick regex) -/
-def parseTop (pat : Bytes) : Option Top :=
-  let (neg, body) := match pat with
-    | c :: r => if c == cTilde then (true, r) else (false, pat)
-    | [] => (false, pat)
+/-- the body of a pattern, all of it -/
+def parseBody (neg : Bool) (body : Bytes) : Option Top :=
   match parseAlts (3 * body.length + 4) body with
   | some (p, []) => some (.pat neg p)
   | _ => none
+
+/-- a pattern of the documented grammar (not a range list, not a backtick regex) -/
+def parseTop (pat : Bytes) : Option Top :=
+  match pat with
+  | c :: r => if c == cTilde then parseBody true r else parseBody false pat
+  | [] => parseBody false pat
 
 /-- the pattern is inside the grammar the theorems cover, *as witnessed by a tree that renders to it* -/
 def inGrammar (pat : Bytes) : Option Top :=
